@@ -187,6 +187,17 @@ theorem fire_no_early (idx : Nat) (M : Int) (st : NState) (curEt : Int) (h : Inv
   rw [← timeAt_congr idx (keq_iff.mp hq)]
   exact Leaf.wmBound_polled idx M l (h.leafWF l hl).1 (hb l hl) k hkl
 
+/-- every record `trigger` emits belongs to a key that one of the primitive triggers just returned from `Poll` -/
+theorem fire_emitted_polled (st : NState) (curEt : Int) (h : Inv C nk wl st) :
+    ∀ r ∈ recs (fire wl C st curEt).2,
+      ∃ l ∈ st.trig.leaves, ∃ k ∈ (l.poll wl).1, keq k (r.vals.take nk) = true := by
+  intro r hr
+  simp only [fire] at hr
+  obtain ⟨k, hk, hq⟩ := fireKeys_recs_key st.aggs curEt st.prev _ (polled_len (wl := wl) h.leafWF) h.prevWF r hr
+  rw [poll_fst, List.mem_flatMap] at hk
+  obtain ⟨l, hl, hkl⟩ := hk
+  exact ⟨l, hl, k, hkl, hq⟩
+
 theorem le_foldl_max (M : Int) (ws : List Int) : M ≤ ws.foldl max M := by
   induction ws generalizing M with
   | nil => exact Int.le_refl _
